@@ -151,6 +151,10 @@ func c10EvalPublic(b []byte, rets ...*retained) string {
 // c10EvalSplits writes b into a ManualBuffer in the given mode, once whole and
 // once cut after every position whose bit is set in mask.
 func c10EvalSplits(b []byte, mode int, mask int) string {
+	// mode bit 1: a read-only accessor is called between the pieces (the payload is still split across successive
+	// writes made in the same mode; looking at the buffer in between must not matter)
+	peek := mode&2 != 0
+	mode &= 1
 	var whole buffer.Buffer
 	whole.SetMode(buffer.OutputMode(mode))
 	whole.Write(b)
@@ -158,6 +162,11 @@ func c10EvalSplits(b []byte, mode int, mask int) string {
 	var sp buffer.Buffer
 	sp.SetMode(buffer.OutputMode(mode))
 	last, piece := 0, 0
+	defer func(m int) {
+		if peek {
+			mode = m | 2
+		}
+	}(mode)
 	for i := 1; i <= len(b); i++ {
 		if i == len(b) || mask&(1<<(i-1)) != 0 {
 			if piece%2 == 0 {
@@ -165,12 +174,27 @@ func c10EvalSplits(b []byte, mode int, mask int) string {
 			} else {
 				sp.WriteString(string(b[last:i]))
 			}
+			if peek && i < len(b) {
+				switch piece % 4 {
+				case 0:
+					_ = sp.RedactableString()
+				case 1:
+					_ = sp.Len()
+				case 2:
+					_ = sp.RedactableBytes()
+				default:
+					_ = sp.String()
+				}
+			}
 			piece++
 			last = i
 		}
 	}
 	got := []byte(sp.RedactableString())
 	if !bytes.Equal(got, want) {
+		if peek {
+			return fmt.Sprintf("mode %d payload %q: one write gives %q, split mask %b with an accessor call (RedactableString, Len, RedactableBytes, String in turn) between the pieces gives %q", mode, b, want, mask, got)
+		}
 		return fmt.Sprintf("mode %d payload %q: one write gives %q, split mask %b gives %q", mode, b, want, mask, got)
 	}
 	if !WF(got) || !LINE(got) {
@@ -293,13 +317,16 @@ func checkC10(c *Ctx) {
 		}
 	})
 	es := NewStrEnum(alphaB, nSplit)
-	c.Section("C10/splits", map[string]interface{}{"alphabet": alphaB, "max_len": nSplit, "modes": "UnsafeEscaped, SafeEscaped", "splits": "all 2^(len-1) compositions"}, es.Total, func(i int, w *Worker) {
+	c.Section("C10/splits", map[string]interface{}{"alphabet": alphaB, "max_len": nSplit, "modes": "UnsafeEscaped, SafeEscaped", "splits": "all 2^(len-1) compositions, each also with an accessor call between the pieces"}, es.Total, func(i int, w *Worker) {
 		b := es.Get(i, nil)
 		if len(b) == 0 {
 			return
 		}
-		for mode := 0; mode <= 1; mode++ {
+		for mode := 0; mode <= 3; mode++ {
 			for mask := 0; mask < 1<<(len(b)-1); mask++ {
+				if mode >= 2 && mask == 0 {
+					continue
+				}
 				w.Eval()
 				if d := c10EvalSplits(b, mode, mask); d != "" {
 					w.Fail("splits", c10case{B: b, Q: q(string(b)), Mode: mode, Mask: mask}, d)
